@@ -70,4 +70,4 @@ def run_config(c):
         tt += dt
     hdr = l1._hdr(c["solver"], c["strategy"], c["initc"], steps)
     evs = [e for e in l1.normalise([e for e in TR.events if not (e["op"] == "marker" and e["name"] == "err_begin")])]
-    return {"hdr": hdr, "ev": evs}, eps
+    return {"hdr": hdr, "ev": evs, "raw_q": l1.q_factors(TR.events)}, eps
